@@ -445,6 +445,25 @@ pub fn c08(cx: &mut Ctx) {
         cx.op("canproceed");
         cx.op("proceed");
     }
+    // Transfer-Encoding values that are NOT the chunked coding although they look like it (a prefix of the word,
+    // an extension of it, an empty element, an empty value): the body is the declared length, verbatim
+    for te in ["chunk", "ch", "c", "chunked-v2", "chunkedd", "xchunked", "gzip,", ",", "", "chunke", "CHUNK", "chunked2, gzip"] {
+        for n in [5usize, 12] {
+            cx.case("tenear");
+            let body: Vec<u8> = (0..n).map(|i| b"5\r\nab0\r\n\r\n"[i % 10]).collect();
+            let head = format!("HTTP/1.1 200 OK\r\nTransfer-Encoding: {}\r\nContent-Length: {}\r\n\r\n", te, n).into_bytes();
+            cx.meta(&format!("len {} {}", n, hx(&body)));
+            if !to_recv_body(cx, "GET", &head) { cx.op("close?"); continue; }
+            cx.op("mode");
+            let mut stream = body.clone();
+            stream.extend_from_slice(NEXT);
+            let used = read_schedule(cx, &stream, &[n / 2, stream.len()], &mut || 1000, false);
+            cx.meta(&format!("consumed {}", used));
+            cx.op("canproceed");
+            cx.op("proceed");
+            cx.op("close?");
+        }
+    }
     // a request with Expect that gave up waiting: the late 100, the head and the body arrive in ONE window (or the
     // 100 alone first); the caller drops what each call reports as consumed — the body starts where it starts
     for n in [1usize, 5, 30, 300] {
